@@ -280,7 +280,7 @@ class P(Prop):
     partial = []
     open_statements = [
         "IEEE doubles: optimal_rounded_fl proves T2-up-to-rounding for the addition a (+) b = fl(a + b) of ANY rounding function fl on an ordered field that is (1) monotone and (2) within u|x| of x (no associativity; monotonicity of the rounded addition and of the embedding are now derived, not assumed). What stays assumed about binary64 is exactly that the sum of two doubles is fl(exact sum) for such an fl with u = 2^-53 — true of round-to-nearest-even when no sum overflows and no operand is NaN (sums in the subnormal range are exact); Float is opaque in Lean, so (1) and (2) are not proved for the hardware and are what the transfer check on doubles samples, with the same tolerance shape and the generous constant 1e-9",
-        "findStopsGlobal: the model (findStopsGlobalPy) reads the observations (x, y, z, t), computes the squared planimetric distances and the durations itself and applies the three tests, the final filter and the identifiers; minCircle is now modelled ON ITS OWN (Model/MinCircle.lean: __welzl, __circle, ENUCoords.__eq__, the random draws as an explicit parameter; stream `mc`, theorems mincircle_*, circle_*), but inside findStopsGlobalPy its answers and the temporal resampling `track ** (size/downsampling)` remain parameters: composing the two models would need the draws of every minCircle call of a run (one global random stream shared by all segments) and the code's rounded square roots / complex circumcentre on doubles, so the check still computes the circles with exact rational geometry — except the entries where tracklib's minCircle returns None (recorded from the run) and circles through >= 3 distinct fixes whose exact diameter equals the limit (doubles decide: read off the run) — and takes the resampled track from tracklib; that the circles handed to the model enclose their segments (hypothesis hc of stops_criterion / find_stops_global) is CHECKED by the driver on every case (enclosedB, theorem enclosedB_sound); it is NOT true of tracklib's minCircle in general (theorem mincircle_not_enclosing), nor is minimality (hmin of stops_fit_in_circle): proved only for the leaves (circle_two_minimal, circle_three_minimal) and for inputs of <= 2 fixes (mincircle_small); for >= 3 fixes which draw sequences give the true minimal circle is open",
+        "findStopsGlobal: the model (findStopsGlobalPy) reads the observations (x, y, z, t), computes the squared planimetric distances and the durations itself and applies the three tests, the final filter and the identifiers; minCircle is now modelled ON ITS OWN (Model/MinCircle.lean: __welzl, __circle, ENUCoords.__eq__, the random draws as an explicit parameter; stream `mc`, theorems mincircle_*, circle_*), but inside findStopsGlobalPy its answers and the temporal resampling `track ** (size/downsampling)` remain parameters: composing the two models would need the draws of every minCircle call of a run (one global random stream shared by all segments) and the code's rounded square roots / complex circumcentre on doubles, so the check still computes the circles with exact rational geometry — except the entries where tracklib's minCircle returns None (recorded from the run) and circles through >= 3 distinct fixes whose exact diameter equals the limit (doubles decide: read off the run) — and takes the resampled track from tracklib; that the circles handed to the model enclose their segments (hypothesis hc of stops_criterion / find_stops_global) is CHECKED by the driver on every case (enclosedB, theorem enclosedB_sound); it is NOT true of tracklib's minCircle in general (theorem mincircle_not_enclosing), nor is minimality (hmin of stops_fit_in_circle): proved only for the leaves (circle_two_minimal, circle_three_minimal) and for inputs of <= 2 fixes (mincircle_small); for >= 3 fixes: every answer that encloses the input IS the minimal circle (mincircle_enclosing_is_minimal; cross-checked on every mc case against the harness's exact geometry), which draw sequences give an enclosing answer is open",
         "minCircle on doubles: the model is exact (squared radii, rational circumcentre); the stream `mc` compares tracklib's doubles with it up to 1e-9 and does not compare inputs where a fix lies exactly on the circle through three other fixes (the code tests it against a centre computed in rounded complex arithmetic: the doubles decide, and the number of draws then differs) — about 30 % of the inputs generated, tagged in the input histogram",
         "findStopsGlobal with downsampling > 1: coordinates and times of the resampled track are interpolated doubles on which the code's own doubles (sqrt of a rounded sum, circumcentre, difference of absolute times) are not exact; a case with a value within 1e-9 of a threshold is not judged (tagged in the input histogram). Lengths are compared through their squares in the model (exact for the integer / dyadic tracks generated)",
         "findStopsGlobal: tracklib's minCircle sometimes returns a circle that does NOT enclose the segment (its three-point case returns the smallest two-point circle containing the third point instead of the circle through the three boundary points Welzl's recursion needs; about 40 %% of the random orders on the five lattice fixes of the witness): a reward is granted where the documented criterion gives 0. The circle returned is recorded from the run and handed to the model as such (the certificate enclosedB then rightly fails); class '%s', judged once it is listed in known_findings.json (findings/C12.json)" % FINDING_LOOSE,
@@ -1358,7 +1358,7 @@ class P(Prop):
             if r in ("random", "stuck"):
                 return {"err": "model:" + r}
             cx, cy, r2, n, enc = r.split(" ")
-            return {"c": [float(Fraction(cx)), float(Fraction(cy)), float(Fraction(r2))], "draws": int(n), "enc": enc == "1"}
+            return {"c": [float(Fraction(cx)), float(Fraction(cy)), float(Fraction(r2))], "draws": int(n), "enc": enc == "1", "r2": r2}
         if k == "partseq":
             return {"seq": [[int(x) for x in rr.split(" ")[0].split(",")] for rr in replies]}
         if k == "feseq":
@@ -1405,6 +1405,12 @@ class P(Prop):
     def compare(self, case, impl_out, model_out):
         k = case["kind"]
         if k == "mc":
+            if model_out.get("enc") and case["pts"]:
+                # theorem mincircle_enclosing_is_minimal, checked on the model's run against the harness's own exact geometry
+                # (largest minimal circle over all triples): an enclosing answer has THE minimal squared radius
+                want = mec_r2([(Fraction(x), Fraction(y)) for x, y, _ in case["pts"]])
+                if Fraction(model_out["r2"]) != want:
+                    raise AssertionError("model: enclosing answer of squared radius %s, minimal enclosing circle %s" % (model_out["r2"], want))
             if self.mc_tie(case):
                 return None
             if "err" in impl_out or "err" in model_out:
@@ -1824,6 +1830,8 @@ P.theorems = P.theorems + [
      "for EVERY draw sequence: the model neither runs out of fuel nor perturbs; the answer is the leaf circle of a list R' of input points and, when a circle, encloses the (up to three) points it is built on — nothing more (mincircle_not_enclosing)"),
     ("TracklibVerif.Props.C12MinCircle", "TV.C12.mincircle_none_only_collinear",
      "minCircle returns None ONLY IF three entries of the input are collinear in the plane (two may be the same place): never on a track with no three collinear fixes, whatever the draws"),
+    ("TracklibVerif.Props.C12MinCircle", "TV.C12.mincircle_enclosing_is_minimal",
+     "whatever the draws: an answer of minCircleOfPoints that encloses every input fix (the driver's certificate enc) is THE minimal enclosing circle; so minCircle errs only by None or by not enclosing"),
     ("TracklibVerif.Props.C12MinCircle", "TV.C12.encloses_sound",
      "the certificate `enc` the driver evaluates on every answer of the mc stream is sound"),
 ]
